@@ -18,7 +18,8 @@ Vocabulary (anything else raises Untranslatable -> the check reports the obligat
   statements   return e; | auto [*]x = e; | e; | if (c) {..} [else {..}] | YACLIB_INJECT_FAULT(statement);
                | constructor member-initialiser _value(e)
   expressions  _value | this->_value | parameters | locals | integer literals | true | false
-               | e + e | e - e | e & e | e | e | e ^ e | e == e | c ? a : b
+               | e + e | e - e | e & e | e | e | e ^ e | e == e | e != e | c ? a : b
+               | a && b | a || b (short-circuit) | !a
                | x = e | x += e | x -= e | x &= e | x |= e | x ^= e | ++x | x++ | --x | x--      (x an lvalue name)
                | static_cast<T|U|alias>(e) | std::exchange(x, e) | std::memcmp(&a, &b, sizeof(T)) == 0
                | f(args) for a member function f of the same class hierarchy (reference parameters written back)
@@ -503,7 +504,7 @@ class P:
         return lhs
 
     def ternary(self):
-        c = self.eq()
+        c = self.lor()
         if self.peek() == "?":
             self.eat()
             a = self.expr()
@@ -511,6 +512,20 @@ class P:
             b = self.ternary()
             return ("cond", c, a, b)
         return c
+
+    def lor(self):
+        a = self.land()
+        while self.peek() == "||":
+            self.eat()
+            a = ("lor", a, self.land())
+        return a
+
+    def land(self):
+        a = self.eq()
+        while self.peek() == "&&":
+            self.eat()
+            a = ("land", a, self.eq())
+        return a
 
     def eq(self):
         a = self.bor()
@@ -546,7 +561,7 @@ class P:
         while self.peek() in ("+", "-"):
             op = self.eat()
             a = ("bin", op, a, self.unary())
-        if self.peek() in ("*", "/", "%", "<", ">", "&&", "||"):
+        if self.peek() in ("*", "/", "%", "<", ">"):
             self.err("operator '%s' is not in the vocabulary" % self.peek())
         return a
 
@@ -561,7 +576,10 @@ class P:
         if p == "*":
             self.eat()
             return ("deref", self.unary())
-        if p in ("!", "~", "-", "+"):
+        if p == "!":
+            self.eat()
+            return ("not", self.unary())
+        if p in ("~", "-", "+"):
             self.err("unary '%s' is not in the vocabulary" % p)
         return self.postfix()
 
@@ -852,6 +870,20 @@ class Emit:
             x = self.fresh()
             return self.expr(e[2], ind, lambda a: self.expr(e[3], ind, lambda b:
                              "%sobind (binop S %s %s %s) (fun %s =>\n%s)" % (pad, BOP[op], a, b, x, k(x))))
+        if kind == "not":
+            x = self.fresh("n")
+            return self.expr(e[1], ind, lambda a: "%slet %s := (CBool, if truth %s then 0 else 1) in\n%s" % (pad, x, a, k(x)))
+        if kind in ("land", "lor"):
+            # short-circuit: the right operand (and its effects) only when the left one does not decide
+            x = self.fresh("b")
+
+            def rhs(a):
+                both = self.expr(e[2], ind + 1, lambda b: "%s  let %s := (CBool, if truth %s then 1 else 0) in\n%s" % (pad, x, b, k(x)))
+                short = "%s  let %s := %s in\n%s" % (pad, x, "cfalse" if kind == "land" else "ctrue", k(x))
+                if kind == "land":
+                    return "%sif truth %s then\n%s\n%selse\n%s" % (pad, a, both, pad, short)
+                return "%sif truth %s then\n%s\n%selse\n%s" % (pad, a, short, pad, both)
+            return self.expr(e[1], ind, rhs)
         if kind == "cond":
             raise Untranslatable("%s: ?: on values is not in the vocabulary" % self.where)
         if kind == "assign":
@@ -960,7 +992,8 @@ class Emit:
                 a.append("0" if a else "a1")
             if not vs:
                 a = ["a1", "a2"]
-            code = "%sobind (icall I %s %s S T spur (snd value_) %s %s) (fun %s =>\n" % (
+            # Impl::op is not told the wrapper's ShouldFailAtomicWeak() answer: its own spurious choice is `false`
+            code = "%sobind (icall I %s %s S T false (snd value_) %s %s) (fun %s =>\n" % (
                 pad, o, "true" if vol else "false", a[0], a[1], r)
             code += "%slet value_ := (fst value_, r_st %s) in\n" % (pad, r)
             if vals and vals[0][0] == "name" and vals[0][1] in self.vars and vals[0][1] != "_value":
